@@ -61,8 +61,8 @@ __CPROVER_ensures(RET == NULL || (gh_dup_len <= n && __CPROVER_is_fresh(RET, gh_
                   && (gh_w < gh_dup_len ==> (RET[gh_w < gh_dup_len ? gh_w : 0] == s[gh_w < gh_dup_len ? gh_w : 0] && RET[gh_w < gh_dup_len ? gh_w : 0] != 0))))
 ;
 
-/* ---- text -> number conversions of libc --------------------------------------------------------
- * ASSUMED: strtol/strtoul/strtoll/strtoull/strtof/strtod convert the longest valid prefix at nptr (correctly rounded for the
+/* ---- text -> number conversions of libc -------------------------------------------------------- */
+/* ASSUMED: strtol/strtoul/strtoll/strtoull/strtof/strtod convert the longest valid prefix at nptr (correctly rounded for the
  * floating-point ones) and set *endptr to the first unused character, in nptr's object.  Observed through ghosts: which
  * function was called (gh_cv_kind), with which base, what it returned (bit pattern) and how many characters it used.
  * The text must be NUL-bounded (CV_TEXT); see contracts/param.h for how far that is tracked. */
